@@ -250,3 +250,16 @@ def lazy_callback_rules(ctx: Ctx, rule: str) -> None:
     calls = [n for n in ast.walk(f.node) if isinstance(n, ast.Call) and dotted(n.func) == "self._callbacks.append"]
     ctx.check(len(calls) == 1, rule, f, "self._callbacks.append in add_callback", "callbacks registered by append",
               "add_callback does not append to self._callbacks (registration order lost)", instance="add_callback: append")
+
+
+def effectively_awaited(g: CFG, call: Node) -> bool:
+    """The coroutine created by `call` is awaited: directly, or as an argument of an awaited wait_for / shield / gather / wait."""
+    if call.id in await_map(g):
+        return True
+    for n in g.nodes:
+        if n.kind == "await" and isinstance(n.ast, ast.Await) and isinstance(n.ast.value, ast.Call):
+            outer = n.ast.value
+            if (dotted(outer.func) or "").split(".")[-1] in ("wait_for", "shield", "gather", "wait"):
+                if any(x is call.ast for a in list(outer.args) + [k.value for k in outer.keywords] for x in ast.walk(a)):
+                    return True
+    return False
